@@ -328,8 +328,14 @@ loop:
 		// Determine the next poll interval.
 		switch {
 		case len(rdBuf) > 0:
-			// Received data, enqueue the read.
-			c.workerRdChan <- rdBuf
+			// Received data, enqueue the read.  The reader may have stopped
+			// reading (full queue), so also give up when Close() is called
+			// instead of blocking forever.
+			select {
+			case c.workerRdChan <- rdBuf:
+			case <-c.workerCloseChan:
+				break loop
+			}
 
 			// And poll immediately.
 			interval = 0
